@@ -108,6 +108,87 @@ def warning_witness(ck):
         ck.violation(["no-overlap-warning"], "supplying a column that overrides a rule raises no FunctionsAndColumnsOverlapWarning", {"kind": "warn"})
 
 
+def _roundtrip(args):
+    """concrete witness: compute node n, supply it back (as DataFrame column and inside a dict of Series
+    whose index is not the default one), compare every other default target"""
+    warnings.filterwarnings("ignore")
+    date, n = args
+    import numpy
+    import pandas as pd
+    from gettsim import compute_taxes_and_transfers
+    from _gettsim.config import DEFAULT_TARGETS
+    from _gettsim.synthetic import create_synthetic_data
+    P, F = gt.env(date)
+    df = create_synthetic_data(n_adults=2, n_children=2, policy_year=date.year,
+                               specs_heterogeneous={"bruttolohn_m": [[2100.0, 450.0, 0.0, 0.0]]}).reset_index(drop=True)
+    # every computed node of the default graph is observed, not only the default targets
+    d0 = symdag.Dag(date)
+    targets = sorted(t for t in d0.graph.nodes if t in d0.funcs and t != n and t not in df.columns)
+    if n in df.columns:
+        return n, [], "already a data column of the witness"
+    bad = []
+    try:
+        base = compute_taxes_and_transfers(df, P, F, targets=targets + [n])
+    except Exception as e:   # noqa: BLE001
+        return n, [], f"base run raises {type(e).__name__}"
+    col = base[n]
+
+    def differs(out):
+        for t in targets:
+            a, b = out[t].to_numpy(), base[t].to_numpy()
+            try:
+                same = numpy.allclose(a.astype(float), b.astype(float), rtol=0, atol=1e-9, equal_nan=True)
+            except (TypeError, ValueError):
+                same = list(a) == list(b)
+            if not same:
+                return t
+        return None
+    # (a) DataFrame input, column attached by position
+    d2 = df.copy()
+    d2[n] = col.values
+    try:
+        t = differs(compute_taxes_and_transfers(d2, P, F, targets=targets))
+        if t:
+            bad.append(f"DataFrame input: supplying {n} = its computed values changes {t}")
+    except Exception as e:   # noqa: BLE001
+        bad.append(f"DataFrame input: supplying {n} raises {type(e).__name__}: {e}"[:200])
+    # (b) dict of Series whose (shared) index is sparse and unsorted; the computed column is supplied as returned
+    idx = [40, 3, 17, 9][: len(df)]
+    d3 = {c: pd.Series(df[c].values, index=idx, name=c) for c in df.columns}
+    d3[n] = col
+    try:
+        t = differs(compute_taxes_and_transfers(d3, P, F, targets=targets))
+        if t:
+            bad.append(f"dict-of-Series input (non-default index): supplying {n} as returned by a first run changes {t}")
+    except Exception as e:   # noqa: BLE001
+        bad.append(f"dict-of-Series input: supplying {n} raises {type(e).__name__}: {e}"[:200])
+    return n, bad, None
+
+
+def witness_roundtrips(ck, tier, rnd):
+    """Integration witnesses -- concrete, NOT the deciding step: the value-level statement of C05
+    (dtype coercion of the supplied column, pandas alignment) is outside what the encoder sees."""
+    date = datetime.date(2023, 7, 1)
+    d0 = symdag.Dag(date)
+    nodes = sorted(n for n in d0.graph.nodes if n in d0.funcs)
+    rnd.shuffle(nodes)
+    pick = ["geburtsdatum", "alter_monate"] + (nodes[:10] if tier == "quick" else nodes)
+    pick = list(dict.fromkeys(n for n in pick if n in d0.graph.nodes))
+    with multiprocessing.get_context("fork").Pool(common.JOBS) as pool:
+        res = pool.map(_roundtrip, [(date, n) for n in pick], chunksize=1)
+    ck.extra["integration_witness_roundtrips"] = len(res)
+    for n, bad, err in res:
+        ck.obligations += 1
+        if err:
+            ck.discharged += 1
+            continue
+        if not bad:
+            ck.discharged += 1
+            continue
+        if not ck.violation(["roundtrip", n], f"witness household at {date}: {bad[0]}", {"witness": n, "date": str(date)}):
+            pass
+
+
 def run(tier):
     ck = common.Check("C05", tier)
     rnd = random.Random(common.SEED)
@@ -138,6 +219,7 @@ def run(tier):
         for dtext in res["diffs"][:3]:
             ck.violation(["override-changes-definition", n, dtext.split(":")[0]], f"supplying {n} at {date}: {dtext}", {"date": str(date), "n": n})
     warning_witness(ck)
+    witness_roundtrips(ck, tier, rnd)
     ck.bounds = {"overridden_nodes": len(jobs), "dates": [str(d) for d in dates],
                  "outside": "value-level identity of the whole API call (pandas/dags); dtype coercion of the supplied column is C03/C20's subject"}
     ck.rule = "one obligation per overridden node; all other nodes compared pairwise; changed provenance proved under n = def(n)"
@@ -148,6 +230,10 @@ def run(tier):
 
 def replay(path):
     d = json.load(open(path))["replay"]
+    if "witness" in d:
+        n, bad, err = _roundtrip((datetime.date.fromisoformat(d["date"]), d["witness"]))
+        print(bad, err)
+        return 1 if bad else 0
     if "n" not in d:
         print("re-run the check")
         return 0
